@@ -139,6 +139,74 @@ class G:
         self._div[bb] = r
         return r
 
+    def diverges_flag(self, bb, env=None, seen=None):
+        """like diverges(), but follows boolean flags: a block that stores a constant into a bool local and later reaches a
+        switch on that local takes only the matching edge (`assert!(matches!(x, P if c))`, `let ok = ..; assert!(ok)`)"""
+        env = dict(env or {})
+        seen = seen if seen is not None else set()
+        key = (bb, tuple(sorted(env.items())))
+        if key in seen:
+            return True
+        seen.add(key)
+        bl = self.body.blocks[bb]
+        for st in bl["stmts"]:
+            if st["k"] == "assign" and not st["p"]["proj"]:
+                l = st["p"]["local"]
+                rv = st["rv"]
+                if rv["k"] == "use" and rv["o"]["k"] == "const" and rv["o"].get("ty") == "bool":
+                    env[l] = rv["o"]["val"] in ("true", "const true")
+                else:
+                    env.pop(l, None)
+        t = bl["term"]
+        if t is None:
+            return True
+        if t["k"] == "return":
+            return False
+        if t["k"] == "unreachable":
+            return True
+        if t["k"] == "call":
+            fn = t["func"].get("fn") or {}
+            if t["target"] is None or fn.get("path", "").startswith(PANIC):
+                return True
+            env.pop(t["dest"]["local"], None)
+        if t["k"] == "switch" and t["discr"]["k"] in ("copy", "move") and not t["discr"]["p"]["proj"] and t["discr"]["p"]["local"] in env:
+            v = env[t["discr"]["p"]["local"]]
+            tm = dict((int(a), b2) for a, b2 in t["targets"])
+            nxt = (t["otherwise"] if 0 in tm else tm.get(1)) if v else tm.get(0, t["otherwise"])
+            return True if nxt is None else self.diverges_flag(nxt, env, seen)
+        ss = self.body.succs(bb)
+        return all(self.diverges_flag(x, env, seen) for x in ss) if ss else True
+
+    def _flag_target(self, bb):
+        """follow `flag = const; goto ..; switch flag` from bb: the block entered on the matching edge, or None"""
+        b = self.body
+        env = {}
+        x, hops = bb, 0
+        while hops < 8:
+            hops += 1
+            bl = b.blocks[x]
+            for st in bl["stmts"]:
+                if st["k"] == "assign" and not st["p"]["proj"] and st["rv"]["k"] == "use" and st["rv"]["o"]["k"] == "const" and st["rv"]["o"].get("ty") == "bool":
+                    env[st["p"]["local"]] = st["rv"]["o"]["val"] in ("true", "const true")
+            t = bl["term"]
+            if t and t["k"] == "goto":
+                x = t["target"]
+                continue
+            if t and t["k"] == "switch" and t["discr"]["k"] in ("copy", "move") and not t["discr"]["p"]["proj"] and t["discr"]["p"]["local"] in env:
+                L = t["discr"]["p"]["local"]
+                v = env[L]
+                # the flag takes this value only below bb
+                for bi2, si2, st2 in b.stmts():
+                    if st2["k"] == "assign" and not st2["p"]["proj"] and st2["p"]["local"] == L and st2["rv"]["k"] == "use" and st2["rv"]["o"]["k"] == "const":
+                        if (st2["rv"]["o"]["val"] in ("true", "const true")) == v and not (bi2 == bb or bb in self.dom.get(bi2, set())):
+                            return None
+                    elif st2["k"] == "assign" and not st2["p"]["proj"] and st2["p"]["local"] == L and st2["rv"]["k"] != "use":
+                        return None
+                tm = dict((int(a), b2) for a, b2 in t["targets"])
+                return (t["otherwise"] if 0 in tm else tm.get(1)) if v else tm.get(0, t["otherwise"])
+            return None
+        return None
+
     # ---- classification of expressions
     def param_path(self, e):
         """('param', local, fields) if e is a projection of a parameter"""
@@ -427,6 +495,19 @@ class G:
                 continue
             tdiv, fdiv = self.diverges(true_succ), self.diverges(false_succ)
             if tdiv == fdiv:
+                tdiv, fdiv = self.diverges_flag(true_succ), self.diverges_flag(false_succ)
+                if tdiv != fdiv:
+                    # the surviving edge records the outcome in a bool flag that a later switch tests: the fact holds from that
+                    # switch's matching edge on, provided the flag gets this value only where the comparison survived
+                    surv = false_succ if tdiv else true_succ
+                    eff = self._flag_target(surv)
+                    if eff is None:
+                        continue
+                    if tdiv:
+                        false_succ = eff
+                    else:
+                        true_succ = eff
+            if tdiv == fdiv:
                 continue
             op = e[1]
             holds_true = not tdiv          # comparison is true on the surviving edge
@@ -435,6 +516,17 @@ class G:
             if not holds_true:
                 op = {"Lt": "Ge", "Le": "Gt", "Gt": "Le", "Ge": "Lt", "Eq": "Ne", "Ne": "Eq"}[op]
             out.append((bi, op, e[2], e[3], false_succ if tdiv else true_succ))
+            # `x.checked_add(k)` as Some(s) with s <= dim (resp. <): then x <= dim and k <= dim as well (the sum did not wrap)
+            for side, other in ((e[2], e[3]), (e[3], e[2])):
+                sd = strip(side)
+                if sd[0] == "field" and sd[2] == 0 and strip(sd[1])[0] == "downcast" and strip(sd[1])[2] == "Some":
+                    cc = strip(strip(sd[1])[1])
+                    if cc[0] == "call" and cc[2] == "checked_add" and len(cc[3]) == 2:
+                        for part in cc[3]:
+                            if side is e[2] and op in ("Le", "Lt"):
+                                out.append((bi, op, part, other, false_succ if tdiv else true_succ))
+                            elif side is e[3] and op in ("Ge", "Gt"):
+                                out.append((bi, op, other, part, false_succ if tdiv else true_succ))
         return out
 
     def ordered_pairs(self):
@@ -860,6 +952,24 @@ def r_guard(f):
                 RA.fail(b.ident, "idx:%s" % bad[1].replace("WithOverflow", ""), "%s multiplies the caller's index with a plain `%s`: with overflow checks off a huge index wraps to an in-range position and a wrong cell is returned instead of a panic" % (b.ident, bad[1].replace("WithOverflow", "")), b.where(bad[0]))
             if not checked_index:
                 RA.fail(b.ident, "idx:unchecked-access", "%s no longer reaches the cell through a checked slice index" % b.ident, b.where())
+    # the capacity calls take an unbounded caller count (insert_row / insert_col pass an iterator's claimed length through
+    # them): any plain or wrapping sum / product of it can wrap (zero-sized elements make lengths near usize::MAX real), and the
+    # "capacity overflow" panic that the insert functions rely on is lost
+    for b in f.fn_bodies:
+        if b.self_head == "TooDee" and b.name in ("reserve", "reserve_exact") and not b.impl_trait and b.kind == "AssocFn":
+            n += 1
+            d = Dfx(b)
+            badc = None
+            for bi, si, st in b.stmts():
+                if st["k"] == "assign" and st["rv"]["k"] == "binop" and re.match(r"^(Mul|Add|Shl)", st["rv"]["op"]):
+                    if any(x == ("param", 2) for o in (st["rv"]["l"], st["rv"]["r"]) for x in walk(d.expr(o))):
+                        badc = (st["span"], st["rv"]["op"].replace("WithOverflow", ""))
+            for bi, t_, fn_ in b.calls():
+                if fn_ and fn_["path"].startswith("core::num::") and re.match(r"^(wrapping_|unchecked_)(mul|add|shl)", fn_["name"]) and any(x == ("param", 2) for a_ in t_["args"] for x in walk(d.expr(a_))):
+                    badc = (t_["span"], fn_["name"])
+            RA.inst(b.ident, "the requested capacity only enters Vec's own (checked) arithmetic", badc is None)
+            if badc:
+                RA.fail(b.ident, "capacity:%s" % badc[1], "%s combines the caller's count with a plain `%s`: for zero-sized elements (lengths near usize::MAX) the sum wraps with overflow checks off, Vec::reserve is skipped and its capacity-overflow panic - which insert_row / insert_col rely on before they lower the length - is lost" % (b.ident, badc[1]), b.where(badc[0]))
     from .rules_struct import cfg_features
     R.require_floor(n, 40 if len(cfg_features(f)) == 4 else 28, "role instances")
     return [R, RA], n
